@@ -464,9 +464,13 @@ func c10Class(c *mc.Check, maxTok int) {
 		if (ClassOf(u) == Binary) != bin {
 			return fmt.Sprintf("ClassOf(%q) = %v, bytes in numerator = %v", u, ClassOf(u), bin)
 		}
+		Tidy(1, u)
+		if (ClassOf(u) == Binary) != bin {
+			return fmt.Sprintf("after Tidy(1, %q): ClassOf = %v, bytes in numerator = %v", u, ClassOf(u), bin)
+		}
 		return ""
 	}
-	f := c.Family("class-of-unit", fmt.Sprintf("every unit of ≤%d tokens from %q: binary exactly when B, MB or bytes is a numerator component (unit model); non-trivial = unit mentions bytes somewhere", maxTok, toks), replay)
+	f := c.Family("class-of-unit", fmt.Sprintf("every unit of ≤%d tokens from %q: binary exactly when B, MB or bytes is a numerator component (unit model), asked before and after the unit has been through Tidy, and of the tidied spelling; non-trivial = unit mentions bytes somewhere", maxTok, toks), replay)
 	if c.Replaying() {
 		return
 	}
@@ -487,6 +491,15 @@ func c10Class(c *mc.Check, maxTok int) {
 			l.Outcome(fmt.Sprintf("binary=%v", bin))
 			if got != bin {
 				c.Fail(f, "class", u, fmt.Sprintf("ClassOf(%q) = %v, bytes in numerator = %v", u, ClassOf(u), bin))
+			}
+			// the class is a function of the unit alone: also after the unit has been through Tidy (every unit a
+			// Reader sees has), and for the tidied spelling
+			_, tu := Tidy(1, u)
+			if again := ClassOf(u) == Binary; again != bin {
+				c.Fail(f, "class", u, fmt.Sprintf("after Tidy(1, %q): ClassOf(%q) = %v, bytes in numerator = %v", u, u, ClassOf(u), bin))
+			}
+			if _, _, tbin := ref.BaseUnit(tu); (ClassOf(tu) == Binary) != tbin {
+				c.Fail(f, "class", u, fmt.Sprintf("ClassOf(%q) (the tidied spelling of %q) = %v, bytes in numerator = %v", tu, u, ClassOf(tu), tbin))
 			}
 		}
 		l.Flush()
